@@ -282,8 +282,11 @@ func checkC05(v *tunView, m *connModel) {
 			}
 			continue
 		}
-		_ = lastPos
-		_ = pos
+		// in the gateway's order (the gateway is stop-and-wait here, so its order is total)
+		if pos[o.ID] < lastPos {
+			e.Violate("C05", "inbound-order", "telegram id=%d, which the gateway sent and saw acknowledged later, reached the application before an earlier one", o.ID)
+		}
+		lastPos = pos[o.ID]
 	}
 }
 
